@@ -87,7 +87,7 @@ def _run_target(job):
         out["paths"] = rep.paths
         extract = replay.extract_witness(rep) if getattr(rep, "engine", None) is not None and kind != "lemma" else None
         for ob in rep.obligations:
-            r = solve.discharge(ob, timeout_ms=timeout_ms, extract=extract, max_models=4)
+            r = solve.discharge(ob, timeout_ms=timeout_ms, extract=extract, max_models=4, cross_check=(timeout_ms > 10000))
             d = r.as_dict()
             d["smt2"] = (r.smt2 or "")[:3000] if r.status != "proved" else None
             if r.status == "failed" and kind != "lemma" and r.witness:
